@@ -149,6 +149,7 @@ func isAbort(r any) bool { return rt.IsAbort(r) }
 
 // safeParse is ParseVector for harness purposes (initial values of cells).
 func safeParse(a verAPI, s string) (p unsafe.Pointer, err error) {
+	rt.CalmReset()
 	defer func() {
 		if r := recover(); r != nil {
 			p, err = nil, fmt.Errorf("panic: %v", r)
